@@ -16,3 +16,12 @@ def run(run):
     run.assumptions = ['models are built with valid calls only (validity is C06)',
                        'transitive: only closure+ <= result <= closure* is asserted']
     graphgen.run_plan(run, graphgen.is_c01, quick)
+    # models reached by arbitrary API histories (removals, re-adds, rejected calls), graph compared at the end
+    for lang, depth in (('LTiny', 3), ('LTrans', 3)) if quick else (('LTiny', 4), ('LTrans', 3), ('LSet', 3), ('LOne', 3)):
+        run.gen_replay('Gen_Model', 'Gen_Model_states.cfg' if quick else 'Gen_Model.cfg', 'harness.replay_model_graph', {'langs': run.libs(), 'each_step': True},
+                       env={'VERIF_LANG': lang, 'VERIF_DEPTH': depth, 'VERIF_MAXREJ': 0, 'VERIF_GRAPH': 1}, timeout=2400,
+                       name='attack graph after ModelSM behaviours of depth %d on %s (%s)' % (depth, lang, 'one per distinct state' if quick else 'every accepted behaviour'), keep=graphgen.is_c01)
+    run.gen_replay('Gen_Model', 'Gen_Model_sim.cfg', 'harness.replay_model_graph', {'langs': run.libs(), 'each_step': True},
+                   env={'VERIF_LANG': 'LTiny', 'VERIF_DEPTH': 10, 'VERIF_MAXREJ': 2, 'VERIF_GRAPH': 1}, simulate=10 ** 9, depth=11,
+                   max_cases=4000 if quick else 80000, workers=8, timeout=300 if quick else 2400, keep=graphgen.is_c01,
+                   name='attack graph after random ModelSM behaviours of depth 10 on LTiny')
